@@ -125,10 +125,16 @@ fn required_ambiguity_resolution(game: &Game, mv: Move) -> AmbiguityResolution {
         .iter()
         .any(|m| m.src().rank() == mv.src().rank());
 
+    // No other piece of this kind can reach the square: nothing to disambiguate
+    if potentially_ambiguous_moves.is_empty() {
+        return AmbiguityResolution::None;
+    }
+
+    // Otherwise prefer the file, then the rank, then both (the file alone is enough even when the
+    // other piece shares neither our file nor our rank)
     match (ambiguity_by_file, ambiguity_by_rank) {
-        (false, false) => AmbiguityResolution::None,
+        (false, _) => AmbiguityResolution::File,
         (true, false) => AmbiguityResolution::Rank,
-        (false, true) => AmbiguityResolution::File,
         (true, true) => AmbiguityResolution::Exact,
     }
 }
